@@ -1,5 +1,5 @@
 (* C09 - A validated AVC config record yields exactly its parameter sets, never panics. *)
-From H264 Require Import Base.Prelude Model.Nal Model.Source Model.Avcc Model.Sps Model.Context Model.Pps Spec.AvccSpec Proofs.C09_proofs.
+From H264 Require Import Base.Prelude Model.Nal Model.Source Model.Avcc Model.Sps Model.Context Model.Pps Spec.AvccSpec Proofs.C09_proofs Proofs.AvccConverse.
 Local Open Scope N_scope.
 
 (* records built from lists of parameter-set NAL units (<= 31 SPS, <= 255 PPS, each <= 65535 bytes,
@@ -13,6 +13,15 @@ Theorem C09_build : forall h spss ppss trailing,
   (Forall (nal_like 8) ppss -> picture_parameter_sets (build_avcc h spss ppss trailing) = OK (map ItOk ppss)).
 Proof. exact build_ok. Qed.
 Print Assumptions C09_build.
+
+(* converse: every byte string the construction accepts IS a record built from some header fields, at most 31 SPS
+   and 255 PPS byte strings of at most 65535 bytes each, and trailing bytes *)
+Theorem C09_converse : forall data, bytes_ok data -> try_from data = OK tt ->
+  exists h spss ppss trailing, data = build_avcc h spss ppss trailing /\
+    (length spss <= 31)%nat /\ (length ppss <= 255)%nat /\ ah_reserved3 h <= 7 /\
+    Forall nal_len_ok spss /\ Forall nal_len_ok ppss.
+Proof. exact try_from_converse. Qed.
+Print Assumptions C09_converse.
 
 (* once construction has succeeded on ANY bytes, no iterator and no context creation can panic;
    every yielded NAL is non-empty (what RefNal::new needs) *)
